@@ -82,9 +82,14 @@ type Record struct {
 	Names [][]int  `json:"names"`
 	Hs    []Hay    `json:"hs"`
 	Raw   json.RawMessage
+	ReRaw json.RawMessage `json:"-"`
 }
 
 var Syms []Symbol // 1-based ids: Syms[id-1]
+
+// KeepRaw makes ReadRecords retain the JSON text of the syntax tree in Record.ReRaw (for drivers that hand the
+// pattern back to TLC).
+var KeepRaw bool
 
 // HayBytes concatenates the bytes of a symbol sequence.
 func HayBytes(h []int) []byte {
@@ -402,6 +407,14 @@ func ReadRecords(r io.Reader, workers int, fn func(*Record)) (int, error) {
 			rec := new(Record)
 			if jerr := json.Unmarshal([]byte(s), rec); jerr != nil {
 				return n, fmt.Errorf("json: %v: %.120s", jerr, s)
+			}
+			if KeepRaw && rec.Re != nil {
+				var raw struct {
+					Re json.RawMessage `json:"re"`
+				}
+				if json.Unmarshal([]byte(s), &raw) == nil {
+					rec.ReRaw = raw.Re
+				}
 			}
 			if rec.Sym != nil {
 				Syms = rec.Sym
